@@ -248,7 +248,73 @@ def do_f32(c):
     return out
 
 
-KINDS = {"dtype": do_dtype, "f32": do_f32, "ie": do_ie, "isi": do_isi, "vp": do_vp, "normal": do_normal, "normal_mv": do_normal_mv,
+def mkcost(v, kind):
+    import numpy as np
+    if kind == "pyint":
+        return int(v)
+    if kind == "pyfloat":
+        return float(v)
+    if kind == "np64":
+        return np.float64(v)
+    if kind == "npint":
+        return np.int64(v)
+    dt = {"i64": torch.int64, "f32": torch.float32, "f64": torch.float64}[kind[-3:]]
+    return torch.tensor(v, dtype=dt) if kind.startswith("t0d") else torch.tensor([v], dtype=dt)
+
+
+def do_vpk(c):
+    """Victor-Purpura on mixed argument kinds, and the all-float64 evaluation of the same pairs"""
+    td = SD[c["tdtype"]]
+    tr = {k: torch.tensor(c[k], dtype=torch.float64) for k in ("a", "b", "c")}
+    out = {}
+    for r, x, y in (("ab", "a", "b"), ("ba", "b", "a"), ("aa", "a", "a"), ("ac", "a", "c"), ("bc", "b", "c")):
+        d = victor_purpura_pair_dist(tr[x].to(td), tr[y].to(td), mkcost(c["cost"], c["ckind"]))
+        ref = victor_purpura_pair_dist(tr[x], tr[y], torch.tensor([float(c["cost"])], dtype=torch.float64))
+        out[r] = {"d": float(d.reshape(-1)[0]), "dtype": str(d.dtype), "shape": list(d.shape), "ref": float(ref.reshape(-1)[0])}
+    return out
+
+
+def do_isik(c):
+    base = torch.tensor(c["data"], dtype=torch.int64).reshape(c["shape"])
+    x = base.to({"bool": torch.bool, "int64": torch.int64, "int8": torch.int8, "float32": torch.float32,
+                 "float64": torch.float64}[c["rdtype"]])
+    dt = c["dt"]
+    st = {"pyint": lambda: int(dt), "pyfloat": lambda: float(dt), "t0d_f32": lambda: torch.tensor(dt, dtype=torch.float32),
+          "t0d_f64": lambda: torch.tensor(dt, dtype=torch.float64)}[c["skind"]]()
+    r = isi(x, st, time_first=c["time_first"])
+    ref = isi(base.bool(), float(dt), time_first=c["time_first"])
+    f = lambda t: [None if v != v else float(v) for v in t.reshape(-1).double().tolist()]
+    return {"test": f(r), "ref": f(ref), "shape": list(r.shape), "ref_shape": list(ref.shape), "dtype": str(r.dtype)}
+
+
+def do_iek(c):
+    k = c["k"]
+    dd, sd = SD[c["ddtype"]], SD[c["sdtype"]]
+    num = (lambda v: int(v)) if c["nkind"] == "pyint" else (lambda v: float(v))
+
+    def run(conv_d, conv_s, num_):
+        kw = {}
+        if k in (7, 8):
+            kw["adjust"] = None
+        if k == 9:
+            kw["time_constant"] = num_(c["c"])
+        if k == 10:
+            kw["rate_constant"] = num_(c["c"])
+        s_, p, n = (conv_d(torch.tensor([float(c[q])], dtype=torch.float64)) for q in ("s", "p", "n"))
+        t = conv_s(torch.tensor([float(c["t"])], dtype=torch.float64))
+        dt = num_(c["dt"])
+        ep, en = EXTRAP[k](s_, t, p, n, dt, **kw)
+        ikw = {a: b for a, b in kw.items() if a != "adjust"}
+        back = INTERP[k](ep, en, t, dt, **ikw)
+        direct = INTERP[k](p, n, t, dt, **ikw)
+        return [ep, en, back, direct]
+    test = run(lambda x: x.to(dd), lambda x: x.to(sd), num)
+    ref = run(lambda x: x, lambda x: x, float)
+    return {"test": [float(v.reshape(-1)[0]) for v in test], "ref": [float(v.reshape(-1)[0]) for v in ref],
+            "dtypes": [str(v.dtype) for v in test]}
+
+
+KINDS = {"vpk": do_vpk, "isik": do_isik, "iek": do_iek, "dtype": do_dtype, "f32": do_f32, "ie": do_ie, "isi": do_isi, "vp": do_vp, "normal": do_normal, "normal_mv": do_normal_mv,
          "lognormal": do_lognormal, "lognormal_mv": do_lognormal_mv, "poisson": do_poisson,
          "quad_cont": do_quad_cont, "quad_poisson": do_quad_poisson}
 
